@@ -41,7 +41,7 @@ DESIGN_REF = "§5 C22"
 RULE = ("case = one generated program (resource graph + steps + send schedule + runs); distinct = hash of the program; "
         "non-trivial = two step invocations were observed resolving resources at overlapping times")
 REQUIRED_REACH = ["partial_probe_calls", "overlapping_resolutions", "cached_checked", "noncached_checked",
-                  "genuine_cycle_programs", "acyclic_runs_checked", "async_factory_calls", "second_run_on_same_instance"]
+                  "genuine_cycle_programs", "acyclic_runs_checked", "async_factory_calls", "second_run_on_same_instance", "none_valued_resource_observed"]
 ASSUMPTIONS = ["virtual-time asyncio loop; BasicRuntime; async steps",
                "resource names are distinct per factory (ResourceManager keys on __qualname__)",
                "sharing of a non-cached resource between two parameters of one invocation is accepted either way"]
@@ -69,7 +69,7 @@ def gen_case(rnd, deep=False):
         deps = rnd.sample(later, min(k, len(later)))
         is_async = rnd.random() < 0.7
         nodes.append({"name": nm, "async": is_async, "lat": rnd.choice(LATS) if is_async else 0,
-                      "cache": rnd.random() < 0.5, "deps": deps})
+                      "cache": rnd.random() < 0.5, "deps": deps, "none": rnd.random() < 0.12})
     cyclic = rnd.random() < 0.15
     if cyclic:
         j = rnd.randrange(nn)
@@ -240,6 +240,11 @@ def run_case(case, acc: Acc):
         for p, o in c["deps"].items():
             obs.append((c["task"], p[2:], o, f"argument {p} of factory {c['res']} (called at vt={c['vt0']})"))
     for _t, node, o, where in obs:
+        if nodes[node].get("none"):
+            acc.hit("none_valued_resource_observed")
+            if o is not None:
+                viol.append(({"mech": "wrong_resource_injected"}, f"{where} received {o!r}, expected None (the product of {node})"))
+            continue
         if not isinstance(o, progs.Obj) or o.res != node:
             viol.append(({"mech": "wrong_resource_injected"}, f"{where} received {o!r}, expected a {node}"))
 
@@ -250,7 +255,7 @@ def run_case(case, acc: Acc):
         if n["cache"]:
             if calls or seen:
                 acc.hit("cached_checked")
-            made = [c for c in calls if c["obj"] is not None]      # a call cancelled before it returned created nothing
+            made = [c for c in calls if c.get("done")]      # a call cancelled before it returned created nothing
             if len(made) > 1:
                 viol.append(({"mech": "cached_resource_created_more_than_once"},
                              f"cached resource {name}: factory ran to completion {len(made)} times on one workflow instance "
